@@ -101,18 +101,41 @@ Section Main.
     destruct fuel; [discriminate E|]. reflexivity.
   Qed.
 
-  (* where the default clause stands is irrelevant, for Go and for the compiled code *)
-  Lemma default_position : forall tag cs d1 d2 dflt,
-    (forall L, compile L (Switch tag cs d1 dflt) = compile L (Switch tag cs d2 dflt)) /\
-    (forall f tr, exec orc f (Switch tag cs d1 dflt) tr = exec orc f (Switch tag cs d2 dflt) tr).
-  Proof. intros; split; [reflexivity | intros [|f] tr; reflexivity]. Qed.
+  (* The default clause.  Where it stands among the cases (the field dpos of Switch) is looked at neither by
+     GoSpec/GoCtl.v nor by Model/Ctl.v: a dead field, so "the position does not matter" is a modelling
+     assumption here, not a theorem (tied to the implementation only by the instruction-for-instruction
+     correspondence of Model/CorrC06.v).  What IS proved about the default: it runs when no guard of any case
+     holds, for any dpos. *)
 
-  (* ... and it runs exactly when no guard matched: a default placed first is skipped when a later
-     case matches *)
-  Lemma default_skipped : forall g gs body cs dflt fuel tr0 s0 tr',
-    o_cond orc tr0 g = true ->
-    exec_block orc fuel body (EvCond g :: tr0) = Some (Normal, tr') ->
-    exists mf, run orc mf (compile_ctl (BCons (Switch None (CCons g gs body cs) 0 dflt) BNil)) (mkCfg 0 tr0 [] s0)
-               = Finished tr' [].
-  Proof. intros; eapply no_fallthrough; eauto. Qed.
+  (* all guards of all cases, evaluated top to bottom, fail: the trace afterwards (None: some guard holds) *)
+  Fixpoint no_match (tag : option Z) (cs : cases) (tr : trace) : option trace :=
+    match cs with
+    | CNil => Some tr
+    | CCons g gs _ cs' =>
+        let '(m, tr1) := eval_guards orc tag (g :: gs) tr in
+        if m then None else no_match tag cs' tr1
+    end.
+
+  Fixpoint ncases (cs : cases) : nat := match cs with CNil => O | CCons _ _ _ cs' => S (ncases cs') end.
+
+  Lemma exec_cases_no_match : forall cs tag dflt tr tr2 fuel,
+    no_match tag cs tr = Some tr2 ->
+    exec_cases orc (S (ncases cs + fuel)) tag cs dflt tr = exec_block orc fuel dflt tr2.
+  Proof.
+    induction cs as [|g gs body cs' IH]; intros tag dflt tr tr2 fuel H; rewrite exec_cases_S.
+    - cbn in H. inversion H; subst. reflexivity.
+    - cbn [no_match] in H. destruct (eval_guards orc tag (g :: gs) tr) as [m tr1].
+      destruct m; [discriminate|]. cbn [ncases Nat.add]. apply IH. exact H.
+  Qed.
+
+  Lemma default_entered : forall tag cs dpos dflt fuel tr0 s0 tr2 tr',
+    no_match (option_map (o_tag orc tr0) tag) cs (match tag with Some k => EvTag k :: tr0 | None => tr0 end) = Some tr2 ->
+    exec_block orc fuel dflt tr2 = Some (Normal, tr') ->
+    exists mf, run orc mf (compile_ctl (BCons (Switch tag cs dpos dflt) BNil)) (mkCfg 0 tr0 [] s0) = Finished tr' [].
+  Proof.
+    intros tag cs dpos dflt fuel tr0 s0 tr2 tr' Hn E.
+    apply (skeleton_ok _ (S (S (S (ncases cs + fuel)))) tr0 s0 Normal tr').
+    rewrite exec_block_S, exec_S. cbv zeta.
+    destruct tag as [k|]; cbn [option_map] in Hn; rewrite (exec_cases_no_match _ _ _ _ _ _ Hn), E; reflexivity.
+  Qed.
 End Main.
